@@ -288,6 +288,14 @@ class CasXmiDeserializer:
                         fs[feature_name] = feature_structures[target_id]
 
         cas = Cas(typesystem=typesystem, lenient=lenient)
+
+        # Map from offsets in UIMA UTF-16 based offsets to Unicode codepoints. This concerns every annotation, also
+        # those which are only referenced by other feature structures and are not a member of any view.
+        for fs in feature_structures.values():
+            if typesystem.is_instance_of(fs.type.name, TYPE_NAME_ANNOTATION) and fs.sofa is not None:
+                fs.begin = fs.sofa._offset_converter.external_to_python(fs.begin)
+                fs.end = fs.sofa._offset_converter.external_to_python(fs.end)
+
         for sofa in sofas.values():
             if sofa.sofaID == "_InitialView":
                 view = cas.get_view("_InitialView")
@@ -316,13 +324,12 @@ class CasXmiDeserializer:
                     continue
 
                 fs = feature_structures[member_id]
-
-                # Map from offsets in UIMA UTF-16 based offsets to Unicode codepoints
-                if typesystem.is_instance_of(fs.type.name, TYPE_NAME_ANNOTATION):
-                    fs.begin = sofa._offset_converter.external_to_python(fs.begin)
-                    fs.end = sofa._offset_converter.external_to_python(fs.end)
-
                 view.add(fs, keep_id=True)
+
+            # Feature structures that are not a member of the view still have to refer to the sofa of this CAS
+            for fs in feature_structures.values():
+                if getattr(fs, FEATURE_BASE_NAME_SOFA, None) is sofa:
+                    fs.sofa = view.get_sofa()
 
         cas._xmi_id_generator = IdGenerator(self._max_xmi_id + 1)
         cas._sofa_num_generator = IdGenerator(self._max_sofa_num + 1)
